@@ -33,7 +33,8 @@ class Formatter:
         return "".join(self.buf)
 
 
-@model("Arguments::from_str", "core::fmt::Arguments::from_str", "std::fmt::Arguments::from_str")
+@model("Arguments::from_str", "core::fmt::Arguments::from_str", "std::fmt::Arguments::from_str", "Arguments::from_str_nonconst",
+       "core::fmt::Arguments::from_str_nonconst", "std::fmt::Arguments::from_str_nonconst")
 def args_from_str(m, s): return Agg("Arguments", None, [VecObj([deref(s)]), VecObj([])])
 
 
